@@ -345,17 +345,34 @@ impl Prop for Notified {
                 let once_ops = (0..m).map(|_| t.draw(3) as u32).collect();
                 (ops, once_ops, "systematic".into())
             } else {
-                let n = 1 + t.draw(24);
+                // scale swarm: one sequence in sixteen is long (hundreds of sets, dozens of
+                // subscribers with arbitrary indices), the rest stay within 6 sets / 3 subscribers
+                let scale = t.draw(16) == 15;
+                let n = if scale { 50 + t.draw(550) } else { 1 + t.draw(24) };
                 let rare = t.draw(4) == 3;
                 let mut sets = 0;
+                let mut nsubs = 0usize;
                 let mut ops = Vec::new();
                 for _ in 0..n {
                     let d = t.weighted(&[6, 3, 6, 4, 3, 1, 1, 1, 1, if rare { 1 } else { 0 }]);
-                    let op = decode_op(d);
+                    let mut op = decode_op(d);
                     if op == Op::Set {
                         sets += 1;
-                        if sets > 6 {
+                        if sets > 6 && !scale {
                             continue;
+                        }
+                    }
+                    if scale {
+                        match op {
+                            Op::Subscribe => nsubs += 1,
+                            Op::Poll(_) if nsubs > 0 => op = Op::Poll(t.draw(nsubs)),
+                            Op::DropSub(_) if nsubs > 0 => {
+                                if t.draw(4) != 0 {
+                                    continue;
+                                }
+                                op = Op::DropSub(t.draw(nsubs));
+                            }
+                            _ => {}
                         }
                     }
                     ops.push(op);
@@ -462,7 +479,7 @@ impl Prop for Notified {
     }
 
     fn rule(&self) -> String {
-        "Each execution = one sequence of operations (set of a fresh increasing value, subscribe, poll subscriber j, drop subscriber, clone / drop a state clone, drop all states) applied to the real zlink_tokio::notified::State and, identically, to zlink_smol::notified::State, followed by draining every live subscriber; plus one one-shot sequence over {poll, notify, drop notifier}. Systematic part: every sequence over {set, subscribe, poll0, poll1, poll2} up to length 7 (quick) / 9 (thorough) and every one-shot sequence up to length 3. Model per subscriber: yielded values are values that were set, strictly increasing, each marked continues=true; no end-of-stream while a state exists; after draining, the last item is the last value set (if any was set after subscribing); a pending subscriber is woken by the next set. Non-trivial = a subscriber lagged (skipped at least one value) or returned Pending; distinct = distinct (operation sequence, observed items) hash.".into()
+        "Each execution = one sequence of up to 24 operations with at most 6 sets and 3 subscribers (one in sixteen: 50..600 operations, hundreds of sets, dozens of subscribers) (set of a fresh increasing value, subscribe, poll subscriber j, drop subscriber, clone / drop a state clone, drop all states) applied to the real zlink_tokio::notified::State and, identically, to zlink_smol::notified::State, followed by draining every live subscriber; plus one one-shot sequence over {poll, notify, drop notifier}. Systematic part: every sequence over {set, subscribe, poll0, poll1, poll2} up to length 7 (quick) / 9 (thorough) and every one-shot sequence up to length 3. Model per subscriber: yielded values are values that were set, strictly increasing, each marked continues=true; no end-of-stream while a state exists; after draining, the last item is the last value set (if any was set after subscribing); a pending subscriber is woken by the next set. Non-trivial = a subscriber lagged (skipped at least one value) or returned Pending; distinct = distinct (operation sequence, observed items) hash.".into()
     }
 
     fn components(&self) -> Value {
